@@ -1,7 +1,127 @@
-(* C07 -- liveness verdicts are sound and stale cleanup is exclusive.  (statements are being added) *)
-From V Require Import model.Base model.Conc model.Fs model.ProcState.
+(* C07 -- liveness verdicts are sound and stale cleanup is exclusive.  Statements only.
+   Model: model/ProcState.v (process_state.rs, one step = one libc call of one process) over
+   model/Fs.v (files, modes, link state, per-process fcntl locks released by ANY close or by death).
+   `step priv nlc`: priv = the processes are root (CAP_DAC_OVERRIDE); nlc = true is the code since
+   the repair a8f7c5d of F3 (state() re-checks nlink of an unlocked state file).
+   Schedules are arbitrary lists of thread ids (all interleavings at libc-call granularity).
+   The all-schedule theorems are for the stated finite instances (process 0 = the guarded process
+   over its whole life, process 1 = one monitor / one cleaner; every other thread id is idle): proved by
+   a verified reachability closure (proofs/ProcStateClosure.v), not by sampling.  The general
+   statement for ANY number of concurrent monitors and cleaners is not proved here (see claims). *)
+From V Require Import model.Base model.Conc model.Fs model.ProcState proofs.ProcStateClosure proofs.ProcStateProofs.
 Open Scope N_scope.
 
-Example c07_model_runs : fst (fst (run (step false true) [0%nat;0%nat] (init (fun _ => [OCreate]) (fun _ => None)))) = fst (fst (run (step false true) [0%nat;0%nat] (init (fun _ => [OCreate]) (fun _ => None)))).
-Proof. reflexivity. Qed.
-Print Assumptions c07_model_runs.
+(* ---- a running process is never reported dead, its files are never handed to a cleaner ---- *)
+(* process 0: ProcessGuard create, hold, orderly drop (never killed);  process 1: one state() call.
+   In every interleaving, a transition that returns the verdict Dead can only happen when
+   process 0 has crashed -- which it never does here: the verdict Dead is unreachable. *)
+Theorem c07_alive_never_dead : forall priv sched t c' es,
+  let ps := inst_mon None in
+  let c := fst (run (step priv true) sched (init (progs_of ps) (kills_of ps))) in
+  step1 (step priv true) t c = Some (c', es) ->
+  In (ERet OP_STATE VDead) es -> crashed (snd c 0%nat) = true.
+Proof. intros priv sched t c' es ps c H1 H2. eapply alive_never_dead_or_reclaimed; eauto. Qed.
+Print Assumptions c07_alive_never_dead.
+
+(* process 1: ProcessCleaner::new (then drop): it never returns Ok while process 0 has not crashed,
+   at any moment of process 0's life including start-up and orderly shutdown *)
+Theorem c07_alive_never_reclaimed : forall priv sched t c' es,
+  let ps := inst_cln None in
+  let c := fst (run (step priv true) sched (init (progs_of ps) (kills_of ps))) in
+  step1 (step priv true) t c = Some (c', es) ->
+  In (ERet OP_STATE VDead) es \/ In (ERet OP_CLEAN 0) es -> crashed (snd c 0%nat) = true.
+Proof. intros priv sched t c' es ps c H1 H2. eapply alive_never_dead_or_reclaimed; eauto. Qed.
+Print Assumptions c07_alive_never_reclaimed.
+
+(* non-vacuity: the monitor does reach verdicts in these instances (Alive while the guard is held) *)
+Example c07_alive_nonvacuous :
+  rets (snd (run (step false true) (repeat 0%nat 14 ++ repeat 1%nat 12) (init (progs_of (inst_mon None)) (kills_of (inst_mon None)))))
+  = [(0%nat, OP_CREATE, 0); (1%nat, OP_STATE, VAlive)].
+Proof. vm_compute. reflexivity. Qed.
+Print Assumptions c07_alive_nonvacuous.
+
+(* F3 (repaired in /repo by a8f7c5d): with the code before the repair (nlc = false) the statement
+   was false: monitor open(state) -> guard remove(state), close(state) -> monitor F_GETLK = unlocked
+   => Dead while the guard process lives; the same schedule now yields CleaningUp *)
+Definition c07_alive_never_dead_before_repair : Prop := forall sched t c' es,
+  let ps := inst_mon None in
+  let c := fst (run (step false false) sched (init (progs_of ps) (kills_of ps))) in
+  step1 (step false false) t c = Some (c', es) ->
+  In (ERet OP_STATE VDead) es -> crashed (snd c 0%nat) = true.
+Theorem c07_f3_before_repair :
+  In (1%nat, ERet OP_STATE VDead) (snd (f3_run false)) /\ crashed (snd (fst (f3_run false)) 0%nat) = false.
+Proof. exact f3_before_repair. Qed.
+Print Assumptions c07_f3_before_repair.
+Theorem c07_f3_after_repair : rets (snd (f3_run true)) = [(0%nat, OP_CREATE, 0); (1%nat, OP_STATE, VCleaning)].
+Proof. exact f3_after_repair. Qed.
+Print Assumptions c07_f3_after_repair.
+
+(* ---- a process that has died is never reported alive for ever ---- *)
+(* no F_GETLK on the state file issued after the death of process 0 (exit without drop, or SIGKILL
+   before any of its 21 calls) ever sees its lock: the only way to the verdict Alive is closed *)
+Theorem c07_dead_never_seen_alive : forall priv ps sched t c' es,
+  ps = inst_mon_exit \/ (priv = false /\ exists k, (k <= 20)%nat /\ ps = inst_mon (Some k)) ->
+  step1 (step priv true) t (fst (run (step priv true) sched (init (progs_of ps) (kills_of ps)))) = Some (c', es) ->
+  crashed (snd (fst (run (step priv true) sched (init (progs_of ps) (kills_of ps)))) 0%nat) = true ->
+  sees_state_lock es = false.
+Proof. exact dead_lock_never_seen. Qed.
+Print Assumptions c07_dead_never_seen_alive.
+
+(* what a fresh process gets (state, clean, cdrop, state) after process 0 was killed before its
+   k-th call (create = 0..11, drop = 12..20): DoesNotExist for k <= 1 and k = 20; Starting for ever
+   for k = 2..11 (crash inside creation: never collectable, cal/monitoring maps it to DoesNotExist);
+   Dead, collected, DoesNotExist for k = 12, 13; CleaningUp FOR EVER for k = 14..19 *)
+Theorem c07_dead_eventually_table : forall priv k, (k <= 20)%nat -> fst (after_guard_kill priv k) = expect_guard k.
+Proof. exact guard_kill_table. Qed.
+Print Assumptions c07_dead_eventually_table.
+
+(* the property clause "ends up reported dead (and collectable) or absent": the residue is gone after one
+   state/clean/cdrop round of a survivor.  FALSE of the faithful model. *)
+Definition c07_dead_eventually_full : Prop := forall priv k, (k <= 20)%nat -> snd (after_guard_kill priv k) = [].
+Theorem c07_dead_eventually_refuted : ~ c07_dead_eventually_full.
+Proof.
+  intros H. specialize (H false 14%nat). assert (Hk : (14 <= 20)%nat) by lia. specialize (H Hk).
+  apply (proj1 (guard_kill_residue false 14 Hk)) in H. vm_compute in H. discriminate.
+Qed.
+Print Assumptions c07_dead_eventually_refuted.
+Theorem c07_dead_eventually_partial : forall priv k, (k <= 20)%nat ->
+  (snd (after_guard_kill priv k) = [] <-> guard_collectable k = true).
+Proof. exact guard_kill_residue. Qed.
+Print Assumptions c07_dead_eventually_partial.
+
+(* ---- a cleaner that dies does not make the resources uncollectable ---- *)
+(* the winning cleaner is killed before its j-th call (new = 16 calls as user / 18 as root, then drop);
+   FALSE for the 6 kill points after remove(state) and before remove(context) *)
+Definition c07_cleaner_crash_recoverable_full : Prop := forall priv j, (j <= newcalls priv + 8)%nat ->
+  exists pre, fst (after_cleaner_kill priv j) = pre ++ follow2 VDead 0 0 VDNE \/
+              fst (after_cleaner_kill priv j) = pre ++ follow2 VDNE K_DoesNotExist 0 VDNE.
+Theorem c07_cleaner_crash_recoverable_refuted : ~ c07_cleaner_crash_recoverable_full.
+Proof.
+  intros H. destruct (H false 18%nat) as [pre [E|E]]; [cbn; lia| |];
+    rewrite (cleaner_kill_table false 18) in E by (cbn; lia);
+    apply (f_equal (fun l => nth 1 (rev l) (0%nat, 0, 0))) in E; rewrite rev_app_distr in E; vm_compute in E; discriminate.
+Qed.
+Print Assumptions c07_cleaner_crash_recoverable_refuted.
+Theorem c07_cleaner_crash_recoverable_partial : forall priv j, (j <= newcalls priv + 8)%nat ->
+  fst (after_cleaner_kill priv j) = expect_cleaner priv j.
+Proof. exact cleaner_kill_table. Qed.
+Print Assumptions c07_cleaner_crash_recoverable_partial.
+
+(* ---- exclusivity of the cleanup ---- *)
+(* at any time at most one process owns a ProcessCleaner: FALSE when the owner queries state() itself *)
+Definition c07_cleaner_exclusive_full : Prop := forall (ps : list (list pop * option nat)) sched t u,
+  let c := fst (run (step false true) sched (init (progs_of ps) (kills_of ps))) in
+  cfd (snd c t) <> None -> cfd (snd c u) <> None -> crashed (snd c t) = false -> crashed (snd c u) = false -> t = u.
+Theorem c07_cleaner_exclusive_refuted : ~ c07_cleaner_exclusive_full.
+Proof.
+  intros H. specialize (H n4_inst (seq_sched 3) 1%nat 2%nat).
+  destruct n4_two_owners as [_ [H1 [H2 H3]]].
+  assert (H4 : crashed (snd (fst n4_run) 2%nat) = false) by (vm_compute; reflexivity).
+  specialize (H H1 H2 H3 H4). discriminate.
+Qed.
+Print Assumptions c07_cleaner_exclusive_refuted.
+(* sequential part that does hold: a second cleaner that comes while the first one holds is refused *)
+Theorem c07_cleaner_exclusive_partial :
+  fst (seq_rets false n4c_inst) = [(0%nat, OP_CREATE, 0); (1%nat, OP_CLEAN, 0); (2%nat, OP_CLEAN, K_BeingCleaned)].
+Proof. exact n4_control. Qed.
+Print Assumptions c07_cleaner_exclusive_partial.
